@@ -42,20 +42,13 @@ Proof.
 Qed.
 
 (* ---- insert_region, opened up ---- *)
-Definition with_work (r old : region) : region :=
-  if r_reason old =? 1
-  then mkRegion (r_id r) (r_start r) (r_end r) (r_ver r) (r_conf r) (r_peers r)
-         (Nat.modulo (S (r_work old)) (length (r_peers r))) (r_expired r) (r_reason r) (r_reload r) (r_pending r) (r_ready r) (r_sepochs r)
-  else r.
-Definition inherit (r : region) (deleted : list region) : region :=
-  match deleted with old :: _ => with_work r old | [] => r end.
 Lemma inherit_same r deleted :
   r_id (inherit r deleted) = r_id r /\ r_start (inherit r deleted) = r_start r /\ r_end (inherit r deleted) = r_end r /\
   r_ver (inherit r deleted) = r_ver r /\ r_conf (inherit r deleted) = r_conf r /\ r_peers (inherit r deleted) = r_peers r /\
   r_expired (inherit r deleted) = r_expired r /\ r_reload (inherit r deleted) = r_reload r /\ r_ready (inherit r deleted) = r_ready r /\
   r_reason (inherit r deleted) = r_reason r.
 Proof.
-  unfold inherit, with_work. destruct deleted as [|old t]; [repeat split|]. destruct (r_reason old =? 1); repeat split.
+  unfold inherit, keep_bk, with_work. destruct deleted as [|old t]; [repeat split|]. destruct (r_reason old =? 1); repeat split.
 Qed.
 
 Lemma insert_region_unfold c r :
@@ -69,7 +62,7 @@ Lemma insert_region_unfold c r :
 Proof.
   unfold insert_region. destruct (stale_by_latest c r); [reflexivity|].
   destruct (remove_intersecting r (c_sorted c)) as [[l1 deleted] stale]. destruct stale; [reflexivity|].
-  unfold inherit, with_work, rm_step.
+  unfold rm_step.
   destruct (fold_left (fun acc d => remove_version (r_verid d) (fst acc) (snd acc)) deleted (c_regions c, c_latest c)) as [regs lat].
   reflexivity.
 Qed.
